@@ -54,6 +54,65 @@ func targeterClosures(c *Ctx) [][2]*ssa.Function {
 	return out
 }
 
+// innerTargeter: cl is a thin wrapper `func(tgt) error { mu.Lock(); defer mu.Unlock(); return next(tgt) }`
+// around a sibling function literal of the same constructor; returns that literal and the call.
+func innerTargeter(cl *ssa.Function) (*ssa.Function, *ssa.Call) {
+	var inner *ssa.Function
+	var site *ssa.Call
+	n := 0
+	eachInstr(cl, func(i ssa.Instruction) {
+		call, ok := i.(*ssa.Call)
+		if !ok || call.Call.IsInvoke() || call.Call.StaticCallee() != nil {
+			return
+		}
+		g := closureOf(resolveOnceV(call.Call.Value))
+		if g == nil {
+			if ld, isL := isLoad(call.Call.Value); isL {
+				if fv, isFV := ld.X.(*ssa.FreeVar); isFV {
+					if al, isAl := bindingOf(fv).(*ssa.Alloc); isAl {
+						var stored ssa.Value
+						ns := 0
+						for _, r := range refs(al) {
+							if st, isSt := r.(*ssa.Store); isSt && st.Addr == ssa.Value(al) {
+								stored = st.Val
+								ns++
+							}
+						}
+						if ns == 1 {
+							g = closureOf(stored)
+						}
+					}
+				}
+			}
+		}
+		if g == nil || g.Parent() != cl.Parent() || len(call.Call.Args) != len(cl.Params) {
+			return
+		}
+		for k, a := range call.Call.Args {
+			if a != ssa.Value(cl.Params[k]) {
+				return
+			}
+		}
+		inner, site = g, call
+		n++
+	})
+	if n != 1 {
+		return nil, nil
+	}
+	return inner, site
+}
+
+// targeterBody: the function literal holding a targeter's logic (the wrapper's inner literal, if any).
+func targeterBody(cl *ssa.Function) *ssa.Function {
+	if cl == nil {
+		return nil
+	}
+	if in, _ := innerTargeter(cl); in != nil {
+		return in
+	}
+	return cl
+}
+
 // defaultsCell: the free variable of closure cl bound to the constructor's parameter of the given type.
 func boundParamCells(ctor, cl *ssa.Function, pred func(types.Type) bool) []*ssa.FreeVar {
 	var out []*ssa.FreeVar
@@ -87,7 +146,7 @@ func c14Defaults(c *Ctx, withOrder bool) {
 	const rOrder = "default header values are written into the target's header before the target's own values on every path; the default body is assigned first and overwritten only under 'the target has its own body'"
 	n := 0
 	for _, tc := range tcs {
-		ctor, cl := tc[0], tc[1]
+		ctor, cl := tc[0], targeterBody(tc[1])
 		hdrCells := boundParamCells(ctor, cl, func(t types.Type) bool { return isNamedType(t, "net/http", "Header") })
 		bodyCells := boundParamCells(ctor, cl, func(t types.Type) bool {
 			s, ok := t.Underlying().(*types.Slice)
@@ -509,7 +568,7 @@ func c14Required(c *Ctx) {
 		c.Undecided(key, rule, "closure not found")
 		return
 	}
-	cl := returnedClosure(ctor)
+	cl := targeterBody(returnedClosure(ctor))
 	var firstWrite ssa.Instruction
 	eachInstr(cl, func(i ssa.Instruction) {
 		if st, ok := i.(*ssa.Store); ok {
@@ -639,7 +698,7 @@ func c14Exhaustion(c *Ctx) {
 	// end-of-input edges of the stream targeters
 	const rEnd = "end of input is reported as ErrNoTargets"
 	for _, tc := range targeterClosures(c) {
-		cl := tc[1]
+		cl := targeterBody(tc[1])
 		if shortFn(tc[0]) == "lib.NewStaticTargeter" {
 			continue
 		}
@@ -882,7 +941,28 @@ func runC15(c *Ctx) {
 		ctor, cl := tc[0], tc[1]
 		c.Saw("function " + shortFn(cl))
 		ls := computeLockset(cl)
-		heldAny := func(i ssa.Instruction) bool { return len(ls.Held(i)) > 0 }
+		// a thin locked wrapper around an inner literal: the inner one runs with whatever the wrapper holds at the call
+		inner, innerSite := innerTargeter(cl)
+		var lsInner *Lockset
+		outerHeld := false
+		scan := []*ssa.Function{cl}
+		if inner != nil {
+			lsInner = computeLockset(inner)
+			outerHeld = len(ls.Held(innerSite)) > 0
+			scan = append(scan, inner)
+			c.Saw("function " + shortFn(inner))
+		}
+		heldAny := func(i ssa.Instruction) bool {
+			if inner != nil && i.Parent() == inner {
+				return outerHeld || len(lsInner.Held(i)) > 0
+			}
+			return len(ls.Held(i)) > 0
+		}
+		eachInScan := func(f func(ssa.Instruction)) {
+			for _, g := range scan {
+				eachInstr(g, f)
+			}
+		}
 		// mutex must be a captured variable (shared by all callers), and released on every path
 		key := "lockset:" + shortFn(cl)
 		var unsafeSites []ssa.Instruction
@@ -890,7 +970,7 @@ func runC15(c *Ctx) {
 		var aliasSites []ssa.Instruction
 		atomicCells := map[*ssa.FreeVar]int{}
 		plainAccess := map[*ssa.FreeVar][]ssa.Instruction{}
-		eachInstr(cl, func(i ssa.Instruction) {
+		eachInScan(func(i ssa.Instruction) {
 			switch x := i.(type) {
 			case ssa.CallInstruction:
 				cc := x.Common()
@@ -953,8 +1033,8 @@ func runC15(c *Ctx) {
 			}
 		})
 		// helpers called by the closure on captured unsafe state (peekingScanner methods) also must not use aliasing reads
-		for _, f := range inPackageCallees([]*ssa.Function{cl}) {
-			if f == cl {
+		for _, f := range inPackageCallees(scan) {
+			if f == cl || f == inner {
 				continue
 			}
 			eachInstr(f, func(i ssa.Instruction) {
